@@ -729,6 +729,30 @@ Definition run_e2e (c : case) : bytes :=
   | _, _ => str_badcase
   end.
 
+(* kind 6 (the merged keys themselves): sargs = key values of the tuples; zargs = n, 1 if the counter set is
+   exercised too.  Output: merged key of every tuple; the keys held by a LocalCachedMap after GetOrCreate of every
+   tuple (sorted); the keys held by a LogProcessCounterSet (sorted) or "-". *)
+Definition run_key (c : case) : bytes :=
+  match c_zargs c with
+  | [zn; zc] =>
+    if negb (in_range zn 1 8) then str_badcase else
+    match tuples_of (nat_of_Z zn) (c_sargs c) with
+    | None => str_badcase
+    | Some tuples =>
+      let ops := map (fun t => (O, t)) tuples in
+      match run_ops [] g_init [[]] ops with
+      | Ok (g, lms, _) =>
+        let walk := sort_by (fun x => x) (map (fun e => hex (fst e)) (nth O lms [])) in
+        let (m, _) := metric_run m_init tuples in
+        let cnt := sort_by (fun x => x) (map (fun e => hex (fst e)) (m_map m)) in
+        str_ok ++ colon :: join 59 (map (fun t => hex (merged_key t)) tuples) ++ 35 :: join 59 walk ++ 35 ::
+        (if (zc =? 1)%Z then join 59 cnt else dash)
+      | _ => str_panic
+      end
+    end
+  | _ => str_badcase
+  end.
+
 Definition run_case_C06 (c : case) : bytes :=
   match c_kind c with
   | 1 => run_route c
@@ -736,5 +760,6 @@ Definition run_case_C06 (c : case) : bytes :=
   | 3 => run_list c
   | 4 => run_metric c
   | 5 => run_e2e c
+  | 6 => run_key c
   | _ => str_badcase
   end.
